@@ -110,6 +110,8 @@ int  spawn(TaskFn fn, void* arg);    // returns task id; child starts parked and
 void join(int task);
 void join_all();                     // block task 0 until all other tasks are finished
 void yield(int kind, uint64_t obj);  // explicit scheduling point
+void atomic_begin();                 // the current task keeps the baton at every scheduling point until atomic_end()
+void atomic_end();
 void sut_enter();                    // wrappers only simulate while inside SUT code
 void sut_leave();
 bool in_sut();
